@@ -147,6 +147,21 @@ def run(tier, seed):
                 if np.abs(T[si] - T[si][0]).max() > 0:
                     worst, wi = 1.0, (si, sa, sb)
             res.count("hendrix:rows-compared", len(S))
+            # the Lean model of the four masked arrays (proved equal to the joint-law specification), fed with the primitive tables
+            from scipy.stats import poisson as _po
+            D_ = m * (max(qa, qb) + 2)
+            pa_ = [Fraction(float(v)) for v in _po.pmf(np.arange(D_ + 1), kw["demand_poisson_mean_a"])]
+            pb_ = [Fraction(float(v)) for v in _po.pmf(np.arange(D_ + 1), kw["demand_poisson_mean_b"])]
+            tl_ = [Fraction(float(1 - _po.cdf(x_ - 1, kw["demand_poisson_mean_a"]))) for x_ in range(qa * m + 1)]
+            seen_ = {}
+            for si in range(len(S)):
+                seen_.setdefault((int(S[si][:m].sum()), int(S[si][m:].sum())), si)
+            picks = sorted(seen_.items())
+            step_ = max(1, len(picks) // (6 if tier == "quick" else 20))
+            for (sa, sb), si in picks[::step_]:
+                lines.append(f"hendrixprobs D={D_} maxA={qa * m} maxB={qb * m} pa={flist(pa_, frac)} pb={flist(pb_, frac)} tail={flist(tl_, frac)} "
+                             f"rho={frac(Fraction(kw['substitution_probability']))} x={sa} y={sb}")
+                meta.append((dict(case, stock=(sa, sb)), T[si][0].tolist(), "four masked arrays = joint law of Poisson demands with binomial substitution (model row from the primitive tables)"))
             if worst > TOL:
                 res.disagreements.append({"channel": "C16/hendrix", "case": dict(case, state_row=wi[0], stock=(wi[1], wi[2])), "model": "brute-force joint law", "impl": f"max abs diff {worst}",
                                           "failing_input": True, "what": f"joint distribution of units issued differs from Poisson demands + binomial substitution by {worst:.3g}", "key": "hendrix:joint"})
@@ -161,8 +176,11 @@ def run(tier, seed):
     model = core.run_driver(lines)
     for l, m_, (case, row, what) in zip(lines, model, meta):
         mp_ = [float(x) for x in core.plist(core.parse_resp(m_)["probs"])]
+        if l.startswith("hendrixprobs") and core.parse_resp(m_).get("spec_equal") != "true":
+            res.disagreements.append({"channel": "C16/hendrix-model", "case": case, "model": m_[:300], "impl": "", "failing_input": False,
+                                      "what": "model row differs from its own specification row (theorem hendrix_cell_is_joint_law would be false)", "key": "hendrix:model-vs-spec"})
         res.count("rows-compared")
-        res.nontrivial.add(l[:200])
+        res.nontrivial.add(l[:120] + l[-40:])
         tol = TOL_NEGBIN if case["kind"] == "mirjalili" else TOL
         if len(mp_) != len(row) or max(abs(a - b) for a, b in zip(mp_, row)) > tol:
             k = max(range(min(len(mp_), len(row))), key=lambda q: abs(mp_[q] - row[q])) if mp_ and row else 0
